@@ -2,6 +2,7 @@
 pub mod engine;
 pub mod known;
 pub mod props;
+pub mod simdir;
 pub mod util;
 
 use engine::PropDef;
